@@ -12,6 +12,7 @@ import TexelVerif.Drv.Pos
 import TexelVerif.Drv.TB
 import TexelVerif.Drv.Draw
 import TexelVerif.Drv.Rev
+import TexelVerif.Drv.Text
 /-! Line-protocol driver: one operation per stdin line, one canonical reply line.
     Imports model files only (no proofs, no Mathlib), so it links as a `lean_exe`. -/
 
@@ -21,6 +22,7 @@ structure DrvState where
   pgbook : Drv.Book.St := {}
   book : Drv.BookBuild.State := {}
   pos : Drv.Pos.State := {}
+  text : Drv.Text.UciSt := {}
 
 def dispatch (st : DrvState) (line : String) : DrvState × String :=
   let toks := (line.trimAscii.toString.splitOn " ").filter (· ≠ "")
@@ -41,6 +43,7 @@ def dispatch (st : DrvState) (line : String) : DrvState × String :=
   | "tb" :: args => (st, Drv.TB.step args)
   | "draw" :: args => (st, Drv.Draw.step args)
   | "rev" :: args => (st, Drv.Rev.step args)
+  | "text" :: args => let (t, o) := Drv.Text.step st.text args; ({ st with text := t }, o)
   | _ => (st, "bad-op")
 
 partial def loop (h : IO.FS.Stream) (out : IO.FS.Stream) (st : DrvState) : IO Unit := do
